@@ -332,6 +332,16 @@ func (as *adminScen) doOp(admin sarama.ClusterAdmin, op *cf.Op) {
 					}
 				}
 			case "describe-groups":
+				// (the operation may span several coordinators: an incomplete or failed answer of any of them
+				// explains a shorter list - the descriptions carry their own error codes)
+				for _, q := range reqs {
+					if q.api != api {
+						continue
+					}
+					if q.missing || q.fault == "drop-after" || q.fault == "silence" || !as.delivered(q) {
+						bad = true
+					}
+				}
 				if err == nil && len(described) != len(op.Args) && !bad {
 					r.violate("C19.error-swallowed", "describe-groups(%v) returned %d descriptions", op.Args, len(described))
 				}
